@@ -237,7 +237,7 @@ func (fr *Frame) nativeCall(b *ssa.BasicBlock, st *State, name string, callee *s
 		fr.wrRow(st, h, sApp("sl_arr", bs), row)
 		return Val{IsAg: true, Typ: resT}, true
 	case "github.com/multiformats/go-multihash.Decode":
-		fr.trust("multihash.Decode: pure; result.Code = mhcode(bytes), error iff not a well-formed multihash")
+		fr.trust("multihash.Decode: pure; result.Code = mhcode(bytes), result.Length = mhlen(bytes) = number of digest bytes (total length 2 + mhlen when code and length are below 128), error iff not a well-formed multihash")
 		fr.specNative("mhcode")
 		fr.specNative("mhok")
 		r := fr.alloc(st, "decoded")
@@ -250,6 +250,15 @@ func (fr *Frame) nativeCall(b *ssa.BasicBlock, st *State, name string, callee *s
 		codeLoc, _, _ := fr.specFieldLoc(Val{S: r, Typ: pt}, "Code")
 		fr.storeLoc(st, codeLoc, Val{S: sApp("u_mhcode", bs), Typ: types.Typ[types.Uint64]})
 		fc.addFact("true", rangeFact(types.Typ[types.Uint64], sApp("u_mhcode", bs)))
+		// Length: the digest length the header declares; Decode insists that it is the actual one, and code and
+		// length are varints, so a multihash with code 0x12 and a 32-byte digest has exactly 34 bytes
+		fr.specNative("mhlen")
+		if lenLoc, _, ok2 := fr.specFieldLoc(Val{S: r, Typ: pt}, "Length"); ok2 {
+			fr.storeLoc(st, lenLoc, Val{S: sApp("u_mhlen", bs), Typ: types.Typ[types.Int]})
+		}
+		fc.addFact("true", sAnd(sApp("<=", "0", sApp("u_mhlen", bs)),
+			sImp(sAnd(ok, sApp("<", sApp("u_mhcode", bs), "128"), sApp("<", sApp("u_mhlen", bs), "128")),
+				sEq(sApp("sl_len", fr.scalar(args[0])), sApp("+", "2", sApp("u_mhlen", bs))))))
 		errv := fc.freshConst("mherr", "Int")
 		fc.addFact("true", sEq(sEq(errv, "0"), ok))
 		resv := fc.freshConst("mhres", "Int")
@@ -810,7 +819,7 @@ var specNatives = map[string]struct {
 	n   int
 	isB bool
 }{
-	"bcat": {2, false}, "be64": {1, false}, "le64": {1, false}, "i2osp": {1, false}, "mhsum": {2, false}, "mhcode": {1, false}, "mhok": {1, true}, "mhsupported": {1, true},
+	"bcat": {2, false}, "be64": {1, false}, "le64": {1, false}, "i2osp": {1, false}, "mhsum": {2, false}, "mhcode": {1, false}, "mhlen": {1, false}, "mhok": {1, true}, "mhsupported": {1, true},
 	"asn1ok": {1, true}, "asn1R": {1, false}, "asn1S": {1, false}, "asn1rest": {1, false}, "ecdsaok": {4, true},
 	"cborok": {1, true}, "cbormsg": {1, false}, "cborsig": {1, false}, "cborval": {1, false}, "b64": {1, false}, "unb64": {1, false}, "unb64ok": {1, true},
 	"der": {2, false}, "dercode": {2, false}, "jsonok": {1, true}, "bempty": {0, false},
